@@ -19,6 +19,9 @@ def decode(p):
             return {"kind": "debugged run vs plain run", "threads": int(f[1]), "breakOnStart": f[2][0] == "1",
                     "breakOnError": f[2][1] == "1", "breakpoint_edits": f[3], "script": f[4], "timing": f[5],
                     "seed": f[6], "visit_trace_events": len(f[7].split(",")), "program": src}
+        if f[0] == "S":
+            return {"kind": "sink program on pool workers", "workers": int(f[1]), "events": int(f[2]), "breakpoint_edits": f[3],
+                    "script": f[4], "program": src}
         if f[0] == "K":
             return {"kind": "StopThreads", "threads": int(f[1]), "breakpoint_edits": f[2], "program": src}
     except Exception:
@@ -41,6 +44,24 @@ def post(ctx, cases, gores, model):
     cov["hooks_present"] = hooks
     cov["traces_validated_against_impl"] = 0
     cov["handshake_events_replayed"] = 0
+    # per-thread visit traces of the sink cases (pool workers): the model must suspend exactly where the thread did
+    vts = []
+    for fn in sorted(glob.glob(os.path.join(ctx.work, "c15-vt.*.txt"))):
+        for l in open(fn, errors="replace"):
+            l = l.rstrip("\n")
+            if "\t" in l:
+                vts.append(tuple(l.split("\t", 1)))
+    cov["sink_thread_traces_validated"] = 0
+    if vts:
+        res = checklib.run_driver(ctx, ctx.prop, {i: tr for i, (tr, _) in enumerate(vts)}, args=["vt"], shards=4)
+        badv = [i for i in sorted(res) if res[i][0] != "ok"]
+        cov["sink_thread_traces_validated"] = len(res) - len(badv)
+        for i in badv[:2]:
+            tr, payload = vts[i]
+            rp = checklib.write_replay(ctx, "vtrace", {"payload": payload, "readable": decode(payload), "thread_trace": tr},
+                                       "the model suspends exactly at the `!` marks of the recorded per-thread trace",
+                                       res[i][0], f"./check {ctx.prop} --replay <this file>", tag=tr)
+            checklib.violation(ctx, rp, f"per-thread trace of a pool worker differs from the model: {res[i][0]}")
     if not hooks:
         ctx.notes.append("interpreter/debug.go of the tree under test has no verifhook call sites (hooks/C15.patch not "
                          "applied): the window / random schedules fell back to polling and no handshake trace was recorded")
